@@ -157,6 +157,11 @@ pub trait Check: Sync {
     fn run_case(&self, ctx: &mut CaseCtx);
     /// Re-execute a recorded (workload, schedule); push the violations it shows
     fn replay(&self, replay: &Value, ctx: &mut CaseCtx);
+    /// Shrink a recorded (workload, schedule) while it still shows a violation with signature
+    /// `sig`. Called by the driver in a separate process, once per distinct signature.
+    fn minimise(&self, replay: &Value, _sig: &Value) -> Value {
+        replay.clone()
+    }
     fn assumptions(&self) -> Vec<String>;
     /// which components ran real code and which were stubs
     fn components(&self) -> Value;
@@ -172,6 +177,20 @@ pub trait Check: Sync {
     fn watchdog_s(&self, _tier: Tier) -> u64 {
         30
     }
+}
+
+/// Minimisation is expensive: a worker process minimises each violation signature only a couple of
+/// times; later cases with the same signature report the un-minimised workload.
+pub fn should_minimise(sig: &Value) -> bool {
+    use std::sync::Mutex;
+    static SEEN: Mutex<BTreeMap<String, u32>> = Mutex::new(BTreeMap::new());
+    if std::env::var_os("CAOSIM_NO_SHRINK").is_some() {
+        return false;
+    }
+    let mut s = SEEN.lock().unwrap();
+    let n = s.entry(sig.to_string()).or_insert(0);
+    *n += 1;
+    *n <= 2
 }
 
 pub fn stable_hash_json(v: &Value) -> u64 {
